@@ -8,7 +8,8 @@ terms ordered by degree, `a:b` is the row-wise product):
   categorical -> indicator columns in the *declared* category order; a declared category that never
                  occurs keeps its position as an all-zero column; the same holds when the column is
                  wrapped in C(...) with any built-in coding (treatment, sum);
-  numeric     -> the column itself (as float; exact), products with w to rtol 1e-6 (float32 inputs);
+  numeric     -> the column itself (as float; exact) whatever other columns (integer-typed dummies, int data,
+                 floats with non-integral values) stand before or after it; products with w to rtol 1e-6;
   every cell  -> a number (int / float / bool scalar; never str / None / other objects).
 bool: the statement lists bool with the numeric dtypes but no guide says how a bool column is
 coded, so for bool only "every cell is a number" is checked (pandas passes the column through,
@@ -32,7 +33,8 @@ ICAT_DECLARED = [3, 1, 2]
 INTS = [3, 1, 2, 5, 4, 6]
 FLOATS = [1.5, -2.25, 3.0, 0.5, 4.75, 6.0]
 BOOLS = [True, False, True, True, False, False]
-W = [1.5, 2.5, 3.5, 4.5, 5.5, 6.5]
+W = [1.5, 2.5, 3.5, 4.5, 5.5, 6.5]  # float helper column, non-integral values
+N = [4, 1, 3, 2, 6, 5]  # integer helper column (int64)
 
 # name, group, pandas Series source, pyarrow array source (or None), values, levels (or None)
 DTYPES = []
@@ -92,7 +94,10 @@ _add("Float32 (nullable)", "num", f"pd.Series({FLOATS!r}, dtype='Float32')", Non
 _add("int64[pyarrow] via ArrowDtype", "num", f"pd.Series({INTS!r}, dtype=pd.ArrowDtype(pa.int64()))", None, INTS)
 _add("double[pyarrow] via ArrowDtype", "num", f"pd.Series({FLOATS!r}, dtype=pd.ArrowDtype(pa.float64()))", None, FLOATS)
 
-FORMULAS = ("0 + v", "v", "0 + v:w", "v + w + v:w")
+FORMULAS = ("0 + v", "v", "0 + v:w", "v + w + v:w",
+            # several columns of different cell types side by side, no intercept, both orders: every numeric
+            # column must come through unchanged whatever stands next to it (integer-typed dummies / int data first)
+            "0 + v + w", "0 + w + v", "0 + n + w", "0 + w + n", "0 + v + n + w")
 # explicit-coding spellings of the same column: whatever the coding, the level order must be the declared
 # order (categorical dtype) / sorted order (text).  Only for the text / categorical dtypes: C(<numeric>) is a
 # request to treat numbers as categories, which the statement does not speak about.
@@ -102,7 +107,7 @@ C_FORMULAS = ("0 + C(v)", "C(v)", "C(v, contr.treatment)", "C(v, contr.sum)", "0
 MATERIALIZERS = {
     "pandas": ("df", ("pandas", "numpy", "sparse")),
     "narwhals(pandas)": ("nw.from_native(df, eager_only=True)", ("narwhals", "pandas", "numpy", "sparse")),
-    "narwhals(pyarrow)": ("pa.table({'v': V_PA, 'w': pa.array(W, type=pa.float64())})", ("narwhals", "pandas", "numpy", "sparse")),
+    "narwhals(pyarrow)": ("pa.table({'v': V_PA, 'w': pa.array(W, type=pa.float64()), 'n': pa.array(N, type=pa.int64())})", ("narwhals", "pandas", "numpy", "sparse")),
 }
 
 PRELUDE = K.PRELUDE + "import pyarrow as pa\nimport narwhals.stable.v1 as nw\n"
@@ -133,7 +138,7 @@ def _sub(src, old, new):
 def data_code(dt, mat, variant="none"):
     name, group, pd_src, pa_src, values, levels = dt
     v, w = variant_values(dt, variant)
-    src = f"W = {w!r}\n"
+    src = f"W = {w!r}\nN = {N!r}\n"
     if mat == "narwhals(pyarrow)":
         if variant == "v-null":
             if "DictionaryArray" in pa_src:
@@ -145,7 +150,7 @@ def data_code(dt, mat, variant="none"):
     else:
         if variant == "v-null":
             pd_src = _sub(pd_src, repr(values), repr(v))
-        src += f"df = pd.DataFrame({{'v': {pd_src}, 'w': pd.Series(W, dtype='float64')}})\ndata = {MATERIALIZERS[mat][0]}\n"
+        src += f"df = pd.DataFrame({{'v': {pd_src}, 'w': pd.Series(W, dtype='float64'), 'n': pd.Series(N, dtype='int64')}})\ndata = {MATERIALIZERS[mat][0]}\n"
     return src
 
 
@@ -157,7 +162,12 @@ def expected(dt, formula, variant="none"):
     name, group, pd_src, pa_src, values, levels = dt
     v, wv = variant_values(dt, variant)
     uses_w = "w" in formula
-    keep = [i for i in range(len(v)) if v[i] is not None and not (uses_w and wv[i] is None)]
+    uses_v = "v" in formula
+    keep = [i for i in range(len(v)) if not (uses_v and v[i] is None) and not (uses_w and wv[i] is None)]
+    nn = np.array([N[i] for i in keep], dtype=float)
+    if formula in ("0 + n + w", "0 + w + n"):
+        wk = np.array([wv[i] for i in keep], dtype=float)
+        return [[nn, wk] if formula == "0 + n + w" else [wk, nn]]
     vals = [v[i] for i in keep]
     w = np.array([wv[i] if wv[i] is not None else np.nan for i in keep], dtype=float)
     one = np.ones(len(keep))
@@ -165,7 +175,8 @@ def expected(dt, formula, variant="none"):
         return None
     if group == "num":
         x = np.array(vals, dtype=float)
-        return [{"0 + v": [x], "v": [one, x], "0 + v:w": [x * w], "v + w + v:w": [one, x, w, x * w]}[formula]]
+        return [{"0 + v": [x], "v": [one, x], "0 + v:w": [x * w], "v + w + v:w": [one, x, w, x * w],
+                 "0 + v + w": [x, w], "0 + w + v": [w, x], "0 + v + n + w": [x, nn, w]}[formula]]
     if group == "cat":
         level_sets = [list(levels)]
     else:
@@ -177,6 +188,12 @@ def expected(dt, formula, variant="none"):
         ind = [np.array([1.0 if x == lv else 0.0 for x in vals]) for lv in lv_set]
         if formula in ("0 + v", "0 + C(v)"):
             out.append(ind)
+        elif formula == "0 + v + w":
+            out.append(ind + [w])
+        elif formula == "0 + w + v":
+            out.append([w] + ind)
+        elif formula == "0 + v + n + w":
+            out.append(ind + [nn, w])
         elif formula in ("v", "C(v)", "C(v, contr.treatment)"):
             out.append([one] + ind[1:])
         elif formula in ("0 + v:w", "0 + C(v):w"):
@@ -260,9 +277,13 @@ def run_bounded(ctx):
                 if mat == "narwhals(pyarrow)" and pa_src is None:
                     continue
                 for formula in FORMULAS + (C_FORMULAS if group in ("text", "cat") else ()):
+                    if "v" not in formula and name not in ("object", "int64"):
+                        continue  # formulas over the helper columns only: the tested dtype is irrelevant
                     for variant in (VARIANTS if group in ("text", "cat") else ("none",)):
                         if variant == "w-null" and "w" not in formula:
                             continue  # w is not an evaluated factor of this formula: same as "none"
+                        if variant == "v-null" and "v" not in formula:
+                            continue
                         for out in outputs:
                             key = (name, mat, formula, variant, out)
                             b.case(key, nontrivial=True, sample={"dtype": name, "materializer": mat, "formula": formula,
@@ -347,7 +368,7 @@ def _one(rep, dt, mat, formula, out, variant="none"):
         exec(src, env)
         data = env["data"]
         exps = expected(dt, formula, variant)
-        rtol = 0.0 if formula in ("0 + v", "v") else 1e-6
+        rtol = 1e-6 if ":" in formula else 0.0  # only products (float32 inputs) get a tolerance; pass-through is exact
         code = (src + f"res = model_matrix({formula!r}, data, output={out!r})\n"
                 + f"EXPECTED_ANY = {None if exps is None else [[c.tolist() for c in e] for e in exps]!r}\nRTOL = {rtol}\n" + _CHECK_SRC)
         cls = f"{name} | {mat}" + (" | via C()" if "C(" in formula else "") + ("" if variant == "none" else " | rows dropped for nulls")
